@@ -155,39 +155,51 @@ static void mk_bits(uint *w) {
   for (uint i = NBITS; i < NWORDS * 32; i++) w[i / 32] &= ~(1u << (i % 32));
 }
 static uint ref_rank1(const uint *w, size_t i) { uint r = 0; for (size_t p = 0; p < NBITS; p++) if (p <= i && ((w[p / 32] >> (p % 32)) & 1)) r++; return r; }
+// PART selects the clause (one solver query each): 1 access/rank/count, 2 select1, 3 select0, 4 selectNext1; 0 = all
+#ifndef PART
+#define PART 0
+#endif
 static void bitseq_check(BitSequence *bs, const uint *w, int base) {
-  size_t i = nondet_ushort(); verif_assume(i < NBITS);
-  uint r1 = ref_rank1(w, i);
-  bool bit = (w[i / 32] >> (i % 32)) & 1;
-  verif_assert(bs->access(i) == bit, base + 1);
-  verif_assert(bs->rank1(i) == r1, base + 2);
-  verif_assert(bs->rank0(i) == i + 1 - r1, base + 3);
   uint ones = ref_rank1(w, NBITS - 1);
-  verif_assert(bs->countOnes() == ones && bs->getLength() == NBITS, base + 4);
+  if (PART == 0 || PART == 1) {
+    size_t i = nondet_ushort(); verif_assume(i < NBITS);
+    uint r1 = ref_rank1(w, i);
+    bool bit = (w[i / 32] >> (i % 32)) & 1;
+    verif_assert(bs->access(i) == bit, base + 1);
+    verif_assert(bs->rank1(i) == r1, base + 2);
+    verif_assert(bs->rank0(i) == i + 1 - r1, base + 3);
+    verif_assert(bs->countOnes() == ones && bs->getLength() == NBITS, base + 4);
+  }
   // select: position of the j-th one / zero
   size_t j = nondet_ushort(); verif_assume(j >= 1 && j <= NBITS);
-  if (j <= ones) {
-    size_t p = bs->select1(j);
-    verif_assert(p < NBITS, base + 5);
-    if (p < NBITS) verif_assert(((w[p / 32] >> (p % 32)) & 1) && ref_rank1(w, p) == j, base + 6);
-  } else verif_assert(bs->select1(j) >= NBITS, base + 7);          // "none": (size_t)-1 or length
-  if (j <= NBITS - ones) {
-    size_t p = bs->select0(j);
-    verif_assert(p < NBITS, base + 8);
-    if (p < NBITS) verif_assert(!((w[p / 32] >> (p % 32)) & 1) && p + 1 - ref_rank1(w, p) == j, base + 9);
-  } else verif_assert(bs->select0(j) >= NBITS, base + 10);
+  if (PART == 0 || PART == 2) {
+    if (j <= ones) {
+      size_t p = bs->select1(j);
+      verif_assert(p < NBITS, base + 5);
+      if (p < NBITS) verif_assert(((w[p / 32] >> (p % 32)) & 1) && ref_rank1(w, p) == j, base + 6);
+    } else verif_assert(bs->select1(j) >= NBITS, base + 7);          // "none": (size_t)-1 or length
+  }
+  if (PART == 0 || PART == 3) {
+    if (j <= NBITS - ones) {
+      size_t p = bs->select0(j);
+      verif_assert(p < NBITS, base + 8);
+      if (p < NBITS) verif_assert(!((w[p / 32] >> (p % 32)) & 1) && p + 1 - ref_rank1(w, p) == j, base + 9);
+    } else verif_assert(bs->select0(j) >= NBITS, base + 10);
+  }
+  if (PART == 0 || PART == 4) {
+    // selectNext1: first one at or after i
+    size_t i = nondet_ushort(); verif_assume(i < NBITS);
+    size_t nx = bs->selectNext1(i);
+    size_t ref = NBITS;
+    for (size_t p = NBITS; p-- > 0;) if (p >= i && ((w[p / 32] >> (p % 32)) & 1)) ref = p;
+    if (ref < NBITS) verif_assert(nx == ref, base + 11); else verif_assert(nx >= NBITS, base + 12);
+  }
 }
 extern "C" void h_bitseqrg() {
   uint w[NWORDS];
   mk_bits(w);
   BitSequenceRG *bs = new BitSequenceRG(w, NBITS, FACTOR);
   bitseq_check(bs, w, 0);
-  // selectNext1: first one at or after i
-  size_t i = nondet_ushort(); verif_assume(i < NBITS);
-  size_t nx = bs->selectNext1(i);
-  size_t ref = NBITS;
-  for (size_t p = NBITS; p-- > 0;) if (p >= i && ((w[p / 32] >> (p % 32)) & 1)) ref = p;
-  if (ref < NBITS) verif_assert(nx == ref, 20); else verif_assert(nx >= NBITS, 21);
   delete bs;
   verif_witness();
 }
